@@ -186,6 +186,16 @@ def suite_c04(g, tier, rnd):
                         ls.append('rem %d' % num if kind == 'rem' else '%s %d %d %d' % (kind, num, ln, g.blob()))
                         ls.append('enc')
                         g.case('C04', 'c04.single-edit', ls, rs=rsz)
+    # E1b: proxy options on a request that has no Hop-Limit yet (the library adds one itself first): added in order, inserted, updated, on messages whose
+    #      highest option is below / at / above Hop-Limit, with and without payload, built and parsed
+    for st in ([], [(3, 4)], [(11, 3)], [(3, 4), (11, 2), (15, 3)], [(16, 1)], [(11, 2), (17, 1)], [(3, 2), (35, 9)], [(39, 4)]):
+        for num in (35, 39):
+            for kind in ('opt', 'ins', 'upd'):
+                for pl, rsz, fw in ((0, 0, 0), (9, 1, 0), (30, 1, 1), (1, 0, 1)):
+                    ls = start_lines(st, pl, fw, rnd.choice((0, 4, 8)))
+                    ls.append('%s %d %d %d' % (kind, num, rnd.choice((1, 9, 20)), g.blob()))
+                    ls += ['enc', 'upd %d 5 %d' % (num, g.blob()), 'enc']
+                    g.case('C04', 'c04.proxy-options', ls, rs=rsz)
     # E2: remove every option of a ladder one at a time (all six coap_remove_option delta cases), then re-insert
     for trial in range(6 if tier == 'quick' else 60):
         nums = sorted(rnd.sample(ladder, rnd.randint(3, 8)))
